@@ -23,7 +23,7 @@ MODULE = "Handshake12"
 def replay_model_scripts(chk, binary, prop_kind="completion"):
     """(B1) returns number of divergences"""
     total_div = 0
-    for variant in ("full", "nohv", "resume"):
+    for variant in ("full", "nohv", "resume", "split"):
         gen = vlib.tlc_generate(MODULE, "Handshake12.%s.gen.%s.cfg" % (variant, chk.tier), timeout=1500)
         chk.add_tlc("gen." + variant, gen)
         scripts = gen.printed
@@ -38,7 +38,8 @@ def replay_model_scripts(chk, binary, prop_kind="completion"):
                 inp, out = os.path.join(wd, "in.ndjson"), os.path.join(wd, "out.ndjson")
                 with open(inp, "w") as fh:
                     for s in share:
-                        fh.write(json.dumps({"scen": scen.ALL[fam], "steps": s["steps"], "cap": 2, "bkcap": 3}) + "\n")
+                        fh.write(json.dumps({"scen": scen.ALL[fam], "steps": s["steps"], "cap": 2, "bkcap": 3,
+                                             "split": variant == "split"}) + "\n")
                 rc, txt = vlib.run_test(binary, "TestVerifHsScripts", {"VERIF_IN": inp, "VERIF_OUT": out}, timeout=2400)
                 if rc != 0 or not os.path.exists(out):
                     raise vlib.Inconclusive("script replay harness failed (%s): %s" % (fam, txt[-2000:]))
@@ -62,7 +63,8 @@ def replay_model_scripts(chk, binary, prop_kind="completion"):
                         sc = share[r["script"]]
                         chk.violation({"kind": "no-completion-after-faults", "variant": fam, "final": r.get("final"),
                                        "cerr": r.get("cerr"), "serr": r.get("serr"),
-                                       "script": {"scen": scen.ALL[fam], "steps": sc["steps"], "cap": 2, "bkcap": 3}})
+                                       "script": {"scen": scen.ALL[fam], "steps": sc["steps"], "cap": 2, "bkcap": 3,
+                                                  "split": variant == "split"}})
                 total_div += ndiv
                 chk.parts["replay." + fam] = {"scripts": summ["scripts"], "completed": summ.get("completed", 0),
                                               "diverged": ndiv}
@@ -126,7 +128,7 @@ def nfaults(c):
 
 def run(chk):
     t = chk.tier
-    for variant in ("full", "nohv", "resume"):
+    for variant in ("full", "nohv", "resume", "split"):
         res = vlib.tlc_check(MODULE, "Handshake12.%s.live.%s.cfg" % (variant, t), timeout=2400)
         chk.add_tlc("live." + variant, res)
     vlib.tlc_expect_violation(MODULE, "Handshake12.resume.live.nofix.cfg", "BothEstablish", timeout=600)
